@@ -89,6 +89,19 @@ def property_checks(cfg):
             parts.append(make(c1))
         if all(numpy.all(numpy.isfinite(p)) for p in parts):
             A(("additive over layers/%s" % tag, float(numpy.max(numpy.abs(M - sum(parts))) / sc_), 3e-6))
+    # the own (auto) block of every sensor is the covariance of that sensor's slopes: it cannot depend on which other
+    # sensors are in the system nor on the order they are listed in
+    if len(cfg["masks"]) >= 2 and finite:
+        ns = [int(numpy.array(scc.MASKS[m]).sum()) for m in cfg["masks"]]
+        off = numpy.concatenate([[0], 2 * numpy.cumsum(ns)])
+        worst_own = 0.0
+        for w_ in range(len(ns)):
+            c1 = {k_: ([cfg[k_][w_]] if k_ in ("masks", "d", "alt", "gs", "wvl") else cfg[k_]) for k_ in cfg}
+            M1 = make(c1)
+            blk = M[off[w_]:off[w_ + 1], off[w_]:off[w_ + 1]]
+            if numpy.all(numpy.isfinite(M1)) and numpy.all(numpy.isfinite(blk)):
+                worst_own = max(worst_own, float(numpy.max(numpy.abs(blk - M1)) / max(float(numpy.max(numpy.abs(M1))), 1e-300)))
+        A(("a sensor's own block does not depend on the other sensors or their order", worst_own, 3e-6))
     s = cfg.get("s", 1.7)
     c2 = dict(cfg); c2["layers"] = [dict(l, r0=l["r0"] * s) for l in cfg["layers"]]
     M2 = make(c2)
